@@ -45,6 +45,7 @@ func NewReader(r io.Reader) io.ReadCloser {
 		rr.rBuf = br
 	} else {
 		rr.rBuf = bufio.NewReader(r)
+		rr.ownBuf = true
 	}
 	return rr
 }
@@ -59,17 +60,20 @@ type decompressor struct {
 	err           error
 	peekSize      int
 	eof           bool
+	ownBuf        bool // rBuf was allocated here; a *bufio.Reader handed in by the caller is never re-targeted
 }
 
 func (r *decompressor) Reset(under io.Reader, dict []byte) error {
 	r.r = under
 	if ur, ok := under.(*bufio.Reader); ok {
 		r.rBuf = ur
+		r.ownBuf = false
 	} else {
-		if r.rBuf != nil {
+		if r.rBuf != nil && r.ownBuf {
 			r.rBuf.Reset(under)
 		} else {
 			r.rBuf = bufio.NewReader(under)
+			r.ownBuf = true
 		}
 	}
 
